@@ -112,7 +112,7 @@ TINY = ([CAR], [None, CAR])
 LABELSETS = {"full": FULL, "mid": MID, "small": SMALL, "tiny": TINY}
 
 
-def ap_equals_pr_area(n, ngt, policy, sym_conf, aph, labels="full"):
+def ap_equals_pr_area(n, ngt, policy, sym_conf, aph, labels="full", nested=0):
     """Ap (and APH) for target label car on arbitrary result lists."""
     thr = real("threshold", 0, 20, lo_strict=True)
     weights = None
@@ -129,7 +129,12 @@ def ap_equals_pr_area(n, ngt, policy, sym_conf, aph, labels="full"):
                 return weights[index[id(object_result)]]
 
         tp_metric = AbstractAph()
-    ap = AP.Ap(tp_metric, results, ngt, [CAR], MatchingMode.CENTERDISTANCE, [thr])
+    if nested:  # scene-level input: a list of per-frame lists (first one empty), as get_scene_result builds it
+        k = min(nested, n)
+        feed = [[], list(results[:k]), list(results[k:])]
+    else:
+        feed = results
+    ap = AP.Ap(tp_metric, feed, ngt, [CAR], MatchingMode.CENTERDISTANCE, [thr])
     ap_plain = ap if aph == "none" else AP.Ap(TPMetricsAp(), list(given), ngt, [CAR], MatchingMode.CENTERDISTANCE, [thr])
 
     order = _rank(rows)
@@ -250,6 +255,12 @@ def obligations(pid, tier):
         add(4, [0, 2, 4, 5], allp, False, "none", "full")
         add(5, [0, 1, 3, 5, 6], ["default"], False, "none", "small")
         add(6, [0, 3, 6, 7], ["default"], False, "none", "tiny")
+    # scene-level (nested) input, frames split after the 1st / 2nd result
+    for base in [c for c in list(cases) if c["n"] in (2, 3) and c["sym_conf"] and "_presets" not in c and c["policy"] == "default"]:
+        if base["ngt"] in (1, base["n"]):
+            cases.append(dict(base, nested=1))
+    for k in (1, 2):
+        cases.append(dict(n=4, ngt=3, policy="default", sym_conf=False, aph="none", labels="small", nested=k))
     # APH: abstract heading weights in [0,1]; and the real TPMetricsAph on symbolic yaws
     for n in ([1, 2, 3] if quick else [1, 2, 3, 4]):
         add(n, range(0, n + 2), ["default"], False, "abstract", "tiny" if n > 2 else "small")
